@@ -29,6 +29,9 @@ func isOpaquePkg(path string) bool {
 
 func opaqueResults(sig *types.Signature) V {
 	mk := func(t types.Type) V {
+		if types.Identical(t, types.Universe.Lookup("error").Type()) {
+			return Iface{} // opaque calls (metrics registration, logging, tracing) never fail
+		}
 		if _, ok := t.Underlying().(*types.Interface); ok {
 			return Iface{T: opaqueT, V: Opaque{t.String()}}
 		}
